@@ -37,7 +37,22 @@ def check_query(run, i, ev, why):
         hit = not (s.n_added_sort is None or s.n_added_sort != s.n_added() or s.threshold_sort != thr_obj)
     except Exception:  # noqa: BLE001
         hit = None
-    res = mon.api(s.query, k, t)
+    if (k + n_added) % 3 == 1:
+        # a caller that runs with RuntimeWarnings turned into errors (python -W error::RuntimeWarning, pytest's filterwarnings):
+        # if the library warns inside query() the call fails for that caller - who catches it and asks again, now leniently;
+        # the second answer is held to the same specification as any other
+        import warnings
+
+        try:
+            with warnings.catch_warnings():
+                warnings.simplefilter("error", RuntimeWarning)
+                res = s.query(k, t)
+        except RuntimeWarning:
+            mon.count("queries_repeated_after_a_RuntimeWarning_was_raised")
+            res = mon.api(s.query, k, t)
+        mon.count("queries_under_a_warnings_as_errors_filter")
+    else:
+        res = mon.api(s.query, k, t)
     det = dict(k=k, threshold=t, effective_threshold=eff, answer=H.hh_pairs(res)[:8], cfg=run.cfg, after=why)
     keys = [bytes(a) for a, _ in res]
     counts = [int(c) for _, c in res]
@@ -133,6 +148,8 @@ def hook(run, i, ev):
 def run_case(case, ctx, mon):
     if case["type"] == "midscan":
         return run_midscan(case, ctx, mon)
+    if case["type"] == "big":
+        return run_big(case, ctx, mon)
     r = H.Run(case, mon, hook, on_query)
     r.last_kind = {}
     r.last_query = {}
@@ -233,8 +250,36 @@ def gen_midscan(rng, ctx):
                "inject": [hx(keys[int(rng.integers(0, 6))]), int(rng.integers(50, 2000))], "frac": float(rng.uniform(0.15, 0.95))}
 
 
+def run_big(case, ctx, mon):
+    """Thousands of candidates (sorting / selection shortcuts for big candidate sets start somewhere), every k incl. 0."""
+    import numpy as np
+
+    cfg = case["cfg"]
+    rng = np.random.default_rng(case["seed"])
+    s = state.make(cfg)
+    keys = list({bytes(rng.integers(0, 256, int(rng.integers(1, 9)), dtype=np.uint8)) for _ in range(case["n_keys"])})
+    for key in keys:
+        s.add(key, int(rng.integers(1, 50)) if rng.random() < 0.9 else int(rng.integers(50, 10**6)))
+
+    class R:
+        pass
+
+    run = R()
+    run.mon, run.real, run.cfg, run.ghost, run.saw_hit, run.saw_miss = mon, [s], cfg, [set(keys)], False, False
+    for k in case["ks"]:
+        for t in case["ts"]:
+            check_query(run, 0, ["q", 0, k, t], "add")
+    mon.count("big_candidate_set_cases")
+    mon._extra["largest_candidate_set"] = max(mon._extra.get("largest_candidate_set", 0), len(s.query(10**9, 0)))
+    mon.nontrivial(True)
+
+
 def gen_cases(ctx):
     rng = ctx.rng("cases")
+    if ctx.quick or ctx.shard % 4 == 1:
+        for w, n_keys in ((8192, 3000), (3000, 5000)):
+            yield {"type": "big", "cfg": {"kind": "hh", "width": w, "depth": 2, "max_key_len": 8}, "n_keys": n_keys, "seed": int(rng.integers(0, 2**31)),
+                   "ks": [0, 1, 2047, 2500, 10**9], "ts": [1, None]}
     if ctx.quick or ctx.shard % 4 == 0:
         yield from gen_boundary(rng, ctx)
         yield from gen_midscan(rng, ctx)
@@ -254,6 +299,8 @@ def replay(case, ctx, mon):
 
 
 def floors(mon, ctx):
+    mon.floor("cases with more than 2048 candidates", mon.counters["big_candidate_set_cases"], 2)
+    mon.floor("queries with k == 0", int(0 in mon.classes["k"]), 1)
     mon.floor("queries on the cache-hit path", mon.counters["queries_cache_hit"], 50)
     mon.floor("queries on the cache-miss path", mon.counters["queries_cache_miss"], 50)
     mon.floor("queries right after a merge", mon.counters["queries_after_merge"], 20)
